@@ -1,1 +1,97 @@
-// contracts needing private items of src/msp.rs
+// Kani BOUNDED stand-in for src/msp.rs `Scanner::scan` (the minimizer partition, C07) and
+// `msp_sequence` (C08). Bounds are stated per harness; none of this is counted as proved.
+
+use super::*;
+use crate::kmer::{Kmer2, Kmer3};
+use crate::verif::src::Src;
+use crate::verif::{chk, harness};
+use crate::Mer;
+
+/// score of the p-mer starting at q, straight from the bases (spec side)
+fn pmer_rank(seq: &[u8], q: usize, p: usize) -> usize {
+    let mut r = 0usize;
+    let mut j = 0;
+    while j < p {
+        r = r * 4 + seq[q + j] as usize;
+        j += 1;
+    }
+    r
+}
+
+/// All clauses of C07 on the real `scan`, P = Kmer2, k in [2, 4], k <= m <= k + 4, symbolic bases and a
+/// symbolic score table with values in 0..3 (so heavily tied and constant scores are included).
+pub fn c_scan_p2<S: Src>(s: &mut S) {
+    const P: usize = 2;
+    let k = s.usize();
+    s.assume(k >= P && k <= 4);
+    let m = s.usize();
+    s.assume(m >= k && m <= k + 4);
+    let mut seq = [0u8; 8];
+    let mut i = 0;
+    while i < 8 {
+        seq[i] = s.u8();
+        s.assume(seq[i] < 4);
+        i += 1;
+    }
+    let mut table = [0usize; 16];
+    let mut t = 0;
+    while t < 16 {
+        let v = s.u8();
+        s.assume(v < 3);
+        table[t] = v as usize;
+        t += 1;
+    }
+    s.cover(m == k + 4 && k == 3);
+    let dna = DnaSlice(&seq[..m]);
+    let score = |pm: &Kmer2| table[pm.to_u64() as usize];
+    let res = Scanner::new(&dna, score, k).scan();
+    let n = res.len();
+    chk!(s, n >= 1 && n <= m - k + 1, "scan returns between 1 and m-k+1 intervals");
+    chk!(s, res[0].start == 0, "first interval starts at 0");
+    let mut j = 0;
+    while j < n {
+        let st = res[j].start as usize;
+        let len = res[j].len as usize;
+        let mp = res[j].minimizer_pos as usize;
+        chk!(s, len >= k && len <= 2 * k - P, "interval length is between k and 2k-p");
+        chk!(s, st + len <= m, "interval lies inside the sequence");
+        if j + 1 < n {
+            let nst = res[j + 1].start as usize;
+            chk!(s, nst > st, "interval starts strictly increase");
+            chk!(s, nst == st + len - (k - 1), "consecutive intervals overlap by exactly k-1 bases");
+        } else {
+            chk!(s, st + len == m, "the last interval ends at the end of the sequence");
+        }
+        // minimizer is the p-mer at the reported position
+        chk!(s, mp + P <= m, "minimizer position inside the sequence");
+        chk!(s, res[j].minimizer.get(0) == seq[mp] && res[j].minimizer.get(1) == seq[mp + 1],
+             "the reported minimizer is the p-mer at the reported position");
+        // inside every k-mer of the interval: first k-mer starts at st, last at st+len-k
+        chk!(s, mp >= st + len - k && mp + P <= st + k, "the minimizer lies inside every k-mer of the interval");
+        // minimum score among all p-mers of the interval
+        let msc = table[pmer_rank(&seq, mp, P)];
+        let mut q = st;
+        while q + P <= st + len {
+            chk!(s, msc <= table[pmer_rank(&seq, q, P)], "the minimizer has the minimum score among the interval's p-mers");
+            q += 1;
+        }
+        // maximality: the interval ends only if the next k-mer lost the minimizer or brings a strictly better p-mer
+        if j + 1 < n {
+            let nst = res[j + 1].start as usize;
+            let newp = nst + k - P;
+            chk!(s, nst > mp || table[pmer_rank(&seq, newp, P)] < msc,
+                 "an interval ends only when the next k-mer loses the minimizer or brings a strictly better p-mer");
+        }
+        j += 1;
+    }
+}
+
+harness!(m_scan_p2, c_scan_p2, unwind 18);
+
+pub fn replay(name: &str, s: &mut crate::verif::src::RSrc) -> bool {
+    match name {
+        "m_scan_p2" => c_scan_p2(s),
+        _ => return false,
+    }
+    true
+}
